@@ -90,7 +90,7 @@ func supportedObs(t types.Type, seen map[string]bool) bool {
 		return supportedObs(u.Elem(), seen)
 	case *types.Struct:
 		for i := 0; i < u.NumFields(); i++ {
-			if !supportedObs(u.Field(i).Type(), seen) {
+			if u.Field(i).Name() == "_" || !supportedObs(u.Field(i).Type(), seen) {
 				return false
 			}
 		}
